@@ -3,12 +3,12 @@
 # Independent confirmation of a sub-agent's change in a fresh scratch worktree:
 #   demo passes on HEAD, fails with the patch; the pinned test suite still passes with the patch.
 set -u
-WT="$1"; ID="$2"; PROP="$3"
+WT="$1"; ID="$2"; PROP="$3"; SUB="${4:-MUTANT}"
 OUT=/verif/seeded/$ID
 mkdir -p "$OUT"
-cp "$WT/MUTANT/patch.diff" "$OUT/patch.diff" || exit 2
-cp "$WT/MUTANT/demo.py" "$OUT/demo.py" || exit 2
-cp "$WT/MUTANT/notes.md" "$OUT/notes.md" 2>/dev/null
+cp "$WT/$SUB/patch.diff" "$OUT/patch.diff" || exit 2
+cp "$WT/$SUB/demo.py" "$OUT/demo.py" || exit 2
+cp "$WT/$SUB/notes.md" "$OUT/notes.md" 2>/dev/null
 S=/tmp/vs-$ID
 git -C /repo worktree remove --force "$S" 2>/dev/null
 git -C /repo worktree add -q --detach "$S" HEAD || exit 2
